@@ -602,8 +602,12 @@ func goroutineDump() string {
 	n := runtime.Stack(buf, true)
 	var keep []string
 	for _, g := range strings.Split(string(buf[:n]), "\n\n") {
-		if strings.Contains(g, "aergo/v2/syncer") {
-			keep = append(keep, g)
+		// the syncer's own goroutines (and the blocked actor call), not the harness'
+		for _, f := range []string{"syncer/finder.go", "syncer/hashfetcher.go", "syncer/blockfetcher.go", "syncer/blockprocessor.go", "syncer/syncerservice.go"} {
+			if strings.Contains(g, f) {
+				keep = append(keep, g)
+				break
+			}
 		}
 	}
 	s := strings.Join(keep, "\n\n")
